@@ -779,15 +779,26 @@ def replay(ctx, report, path):
     with open(path, encoding="utf-8") as f:
         data = json.load(f)
     case = data.get("input", data)
-    case = case.get("case") or case.get("kernel_case") or case
+    while isinstance(case, dict) and "kind" not in case and ("case" in case or "kernel_case" in case):
+        case = case.get("case") or case.get("kernel_case")
+    if not isinstance(case, dict) or case.get("kind") not in ("criteria", "pipeline", "kernel", "lean_run"):
+        # a replay file of a broken obligation with no failing input: show what no longer checks
+        print("no input to replay; broken obligations:", json.dumps(data.get("broken_theorems_or_translator", data.get("broken")), default=str)[:2000])
+        for d in data.get("correspondence_disagreements", [])[:3]:
+            print("disagreement:", json.dumps(d, default=str)[:600])
+        return 1
     status = core.BuildStatus()
     ops = translator_cross_check(report, status)
     res = run_case(ctx, report, ops, case, "replay")
     if case.get("kind") == "lean_run":
         print("model run:", json.dumps(res))
+    known = core.load_known(PROP)
+    unknown = 0
     for fl in report.failures:
-        print("spec failure:", fl["clause"], fl["trigger"], json.dumps(fl["impl"])[:300], fl["detail"])
+        is_known = any(k.get("clause") == fl["clause"] and k.get("trigger") == fl["trigger"] for k in known)
+        unknown += 0 if is_known else 1
+        print("spec failure%s:" % (" (known finding)" if is_known else ""), fl["clause"], fl["trigger"], json.dumps(fl["impl"])[:300], fl["detail"])
     for d in report.disagreements:
         print("disagreement:", d["what"], json.dumps(d["impl"], default=str)[:300])
-    print("replayed: failures=%d disagreements=%d" % (len(report.failures), len(report.disagreements)))
+    print("replayed: failures=%d (unknown %d) disagreements=%d" % (len(report.failures), unknown, len(report.disagreements)))
     return 1 if report.failures else 0
